@@ -4,6 +4,7 @@ import (
 	"context"
 	"fmt"
 	"testing"
+	"time"
 
 	"github.com/graphql-go/graphql"
 	"pgregory.net/rapid"
@@ -99,7 +100,38 @@ func (c *CoerceCase) schema() *model.Schema {
 			s.Types[i] = &cp
 		}
 	}
+	// the same probe as the one field of a subscription root: its Subscribe function must be
+	// handed the coerced arguments too
+	if s.Subscription == "" {
+		s.Subscription = "SP"
+		s.Types = append(s.Types, &model.TypeDef{Kind: model.KObject, Name: "SP", Fields: []*model.FieldDef{{Name: "probe", Type: model.T("String"),
+			Args: []*model.ArgDef{{Name: "x", Type: c.ArgType, Default: c.ArgDef}}}}})
+	}
 	return &s
+}
+
+// subscribeProbe subscribes to `subscription ... { probe(x: ...) }` and returns the arguments
+// the Subscribe function was handed (nil, msg when the subscription fails).
+func subscribeProbe(b *build.Built, w *ref.World, subArgs *[]map[string]interface{}, text string, vars map[string]interface{}) (map[string]interface{}, string) {
+	*subArgs = nil
+	ctx, cancel := context.WithCancel(build.WithSession(context.Background(), &build.Session{W: w}))
+	defer cancel()
+	ch := graphql.Subscribe(graphql.Params{Schema: b.Schema, RequestString: text, VariableValues: vars, Context: ctx})
+	select {
+	case r, ok := <-ch:
+		if !ok || r == nil {
+			return nil, "the subscription delivered nothing"
+		}
+		if len(r.Errors) > 0 {
+			return nil, "the subscription failed: " + r.Errors[0].Message
+		}
+	case <-time.After(10 * time.Second):
+		return nil, "the subscription delivered nothing within 10 s"
+	}
+	if len(*subArgs) != 1 {
+		return nil, fmt.Sprintf("the Subscribe function was invoked %d times", len(*subArgs))
+	}
+	return (*subArgs)[0], ""
 }
 
 type probeRun struct {
@@ -117,7 +149,17 @@ func probe(b *build.Built, w *ref.World, text string, vars map[string]interface{
 func c05Oracle(c *CoerceCase) (msg string, classes []string) {
 	s := c.schema()
 	w := &ref.World{S: s, Salt: 1}
-	b, err := build.New(s, w, build.Options{})
+	var subArgs []map[string]interface{}
+	b, err := build.New(s, w, build.Options{Subscribe: func(defType, field string) graphql.FieldResolveFn {
+		return func(p graphql.ResolveParams) (interface{}, error) {
+			cp := map[string]interface{}{}
+			for k, v := range p.Args {
+				cp[k] = v
+			}
+			subArgs = append(subArgs, cp)
+			return &ref.Tok{Type: defType, ID: "event"}, nil // a single-value source
+		}
+	}})
 	if err != nil {
 		return "HARNESS: schema rejected: " + err.Error(), nil
 	}
@@ -155,6 +197,19 @@ func c05Oracle(c *CoerceCase) (msg string, classes []string) {
 			return m, classes
 		}
 		classes = append(classes, "conformant_variable")
+		// (b') the Subscribe function of a subscription root field is a resolver too
+		if s.Subscription == "SP" {
+			sdoc := &model.Doc{Defs: []*model.Def{{Kind: "subscription", Vars: []*model.VarDef{vd}, Sel: sel}}}
+			stext := model.Print(sdoc, nil).Text
+			got, m := subscribeProbe(b, w, &subArgs, stext, goVars)
+			if m != "" {
+				return fmt.Sprintf("subscription placement: %s\n  %s\n  variables %s", m, stext, canonJSON(goVars)), classes
+			}
+			if a, bb := model.Canon(got), model.Canon(wantArgs); a != bb {
+				return fmt.Sprintf("subscription placement: the Subscribe function received Args %s, input coercion yields %s\n  %s\n  variables %s", a, bb, stext, canonJSON(goVars)), classes
+			}
+			classes = append(classes, "subscribe_function_arguments")
+		}
 		// (c) the same value as an inline literal gives the same arguments
 		if lit, ok := gen.ToLiteral(s, c.ArgType, c.Value); ok {
 			lsel := []*model.Sel{{K: "field", Name: "probe"}}
